@@ -65,6 +65,10 @@ func (x *runner) askAny(t Ty, doc *D, excl []string, ignore int, impl, sig strin
 	if x.cfg.Driver == nil {
 		return
 	}
+	if impl == "hang" {
+		x.r.OracleFail(hx.Case{Sig: "C04 untyped reader does not terminate", Op: "adec " + t.Sexp() + " " + doc.AnySexp(), Impl: impl, Expected: "a value or an error"})
+		return
+	}
 	if hasDupKeys(doc) {
 		x.r.Unmodelled["any-duplicate-keys"]++
 		return
